@@ -39,6 +39,7 @@ public:
 
     OwnThreadHandler<BaseHandler> &moveToOwnThread()
     {
+        QTLOGGER_VERIF_POINT("mv.enter", this, 0, 0);
         QMutexLocker locker(&m_mutex);
         QTLOGGER_VERIF_POINT("mv.locked", this, m_thread ? 1 : 0, 0);
 
@@ -114,6 +115,7 @@ public:
 
     bool process(LogMessage &lmsg) override
     {
+        QTLOGGER_VERIF_POINT("oth.enter", this, 0, 0);
         QMutexLocker locker(&m_mutex);
         QTLOGGER_VERIF_POINT("oth.locked", this, m_worker ? 1 : 0, 0);
 
